@@ -363,6 +363,9 @@ def _run_task(c, cid, st, tier, timeout_ms, both, seed, t0):
         for vals in c.native_samples(st, rnd, tier):
             r = replay_one(cid, st, vals, None)
             native["runs"] += 1
+            native["checked"] = native.get("checked", 0) + r.get("checked", 0)
+            if "sample" not in native:
+                native["sample"] = {"inputs": vals, "contract_evaluations": r.get("checked", 0)}
             touched.update({(t["file"], t["qualname"]): t for t in r.pop("touched", [])})
             if r["failed"]:
                 native["failed"].append({"inputs": vals, "failed": r["failed"]})
